@@ -3,10 +3,52 @@
 // case: <family> <hex of the file> …        observation: accepted | rejected | panic | abort:<signal> |
 //                                                          timeout | exit:<code>
 use implrun::*;
+use parsley_rust::pdf_lib::pdf_traverse_xref::{parse_data, VerifExit};
 use std::io::Write;
+use std::panic::{catch_unwind, AssertUnwindSafe};
 use std::os::unix::process::ExitStatusExt;
 use std::process::{Command, Stdio};
 use std::time::{Duration, Instant};
+
+// For a modelled case (family M) the object context given to the Coq pipeline model must be what the
+// REAL loader produces from the rendered file: parse_data is run in-process (feature `verif`: a rejection
+// unwinds) and every object of the description is compared with the loaded one.
+fn ctx_mismatch(data: &[u8], ctx: &str, root: &str) -> Option<String> {
+    let r = catch_unwind(AssertUnwindSafe(|| parse_data(std::path::Path::new("case.pdf"), data)));
+    match r {
+        Err(payload) => {
+            if payload.downcast_ref::<VerifExit>().is_some() {
+                Some("loader-rejected".to_string())
+            } else {
+                Some("loader-panic".to_string())
+            }
+        },
+        Ok((_fi, c, rid)) => {
+            if format!("{}.{}", rid.0, rid.1) != root {
+                return Some(format!("root:{}.{}", rid.0, rid.1))
+            }
+            if ctx != "-" {
+                for part in ctx.split(';') {
+                    let mut it = part.splitn(2, '=');
+                    let id = it.next().unwrap();
+                    let exp = it.next().unwrap();
+                    let mut idp = id.split('.');
+                    let n: usize = idp.next().unwrap().parse().unwrap();
+                    let g: usize = idp.next().unwrap().parse().unwrap();
+                    match c.lookup_obj((n, g)) {
+                        None => return Some(format!("missing:{}", id)),
+                        Some(o) => {
+                            if pdfobj::show(o.val()) != exp {
+                                return Some(format!("differs:{}", id))
+                            }
+                        },
+                    }
+                }
+            }
+            None
+        },
+    }
+}
 
 fn main() {
     let prof = std::env::var("VERIF_PROFILE").unwrap_or_else(|_| "debug".to_string());
@@ -23,6 +65,11 @@ fn main() {
     let path = format!("{}/c01-{}-{}.pdf", tmpdir, prof, pid);
     run_lines(move |t| {
         let data = unhex(t[1]);
+        if t[0] == "M" && t.len() >= 4 {
+            if let Some(m) = ctx_mismatch(&data, t[2], t[3]) {
+                return format!("ctxbad:{}", m)
+            }
+        }
         {
             let mut f = std::fs::File::create(&path).unwrap();
             f.write_all(&data).unwrap();
